@@ -358,6 +358,10 @@ class Directive(object):
         self.pre        = False
         self.stale      = 'stale bytes at the target of %s %d (%s)\n' \
                           % (direction, idx, self.action)
+        if spec.get('pre') == 'samesize':
+            # other bytes of the very same length, written after the source
+            # (newer mtime): what a size/mtime "up to date" shortcut accepts
+            self.stale  = self.content.swapcase()
 
     # what the application writes into the description
     def as_input(self):
@@ -1676,6 +1680,9 @@ def gen_cases(quick):
             for order in orders:
                 cases.append({'part': 'pre', direction: [dict(d, pre=True)],
                               'order': order})
+                if order == orders[0]:
+                    cases.append({'part': 'pre', 'order': order,
+                                  direction: [dict(d, pre='samesize')]})
 
     # part same: successive tasks name the same target (pilot, session,
     # resource sandbox, a task sandbox shared via `description.sandbox`);
